@@ -171,6 +171,10 @@ class LeanPrinter(ast.NodeVisitor):
             return "True" if n.value else "False"
         if isinstance(n.value, int):
             return "(%d : ℤ)" % n.value if n.value >= 0 else "(-%d : ℤ)" % -n.value
+        if isinstance(n.value, complex):
+            if n.value == 1j:
+                return "Complex.I"
+            return "(((%r : ℝ) : ℂ) + ((%r : ℝ) : ℂ) * Complex.I)" % (n.value.real, n.value.imag)
         if isinstance(n.value, float):
             from fractions import Fraction
             fr = Fraction(n.value).limit_denominator(10**12)
